@@ -308,7 +308,43 @@ POST_HOOK_SCALARS = {
     'upipe_sinesrc_check': {'output_state'}, 'upipe_udpsrc_check': {'output_state'},
     'upipe_vblk_check': {'nb_urefs', 'output_state'}, 'upipe_voidsrc_check': {'output_state'},
     'upipe_http_src_check': {'output_state'},
+    # lib/upipe-ts (thorough tier): a timer-driven source of metadata sections; with no timer pending (nothing sent yet, or the clock was missing)
+    # the hook sends the pending metadata and arms the timer, exactly what the timer or the next input would do
+    'upipe_ts_mdg_check': {'last', 'size', 'max_octetrate', 'output_state', 'cr_dts_delay', 'date_prog', 'date_sys', 'dts_pts_delay', 'flags'},
 }
+
+
+def blocks_with_null_params(g, null_idx):
+    """blocks of g reachable when the parameters in null_idx are NULL (branches on `p`, `!p`, `p != NULL`, `p == NULL`
+    followed on the arm NULL takes)"""
+    def verdict(c):
+        c = strip_all_casts(c)
+        if isinstance(c, dict) and c.get('k') == 'call' and c.get('fn') == '__builtin_expect' and c.get('args'):
+            return verdict(g.resolve(c['args'][0]))
+        if any(control.is_param_ref(c, g, i) for i in null_idx):
+            return False
+        if isinstance(c, dict) and c.get('k') == 'un' and c.get('op') == '!':
+            v = verdict(g.resolve(c.get('e')))
+            return None if v is None else not v
+        if isinstance(c, dict) and c.get('k') == 'bin' and c.get('op') in ('!=', '=='):
+            l, r = g.resolve(c['lhs']), g.resolve(c['rhs'])
+            for a, b in ((l, r), (r, l)):
+                if any(control.is_param_ref(a, g, i) for i in null_idx) and facts.is_null(strip_all_casts(b)):
+                    return c['op'] == '=='
+        return None
+    seen, todo = set(), [g.entry]
+    while todo:
+        b = todo.pop()
+        if b is None or b in seen:
+            continue
+        seen.add(b)
+        c = g.cond(b)
+        v = verdict(c[0]) if c else None
+        if v is None:
+            todo.extend(x for x in g.succ[b] if x is not None)
+        else:
+            todo.append(c[1] if v else c[2])
+    return seen
 
 
 def check_post_hooks(rep, prog, E):
@@ -336,11 +372,12 @@ def check_post_hooks(rep, prog, E):
                 hits, _ = ev.reach((pos[0], pos[1]), lambda x: x.get('k') == 'call' and x.get('fn') and not fwd(x), None)
                 for h in hits:
                     g = prog.lookup(u, h[2]['fn'])
-                    if g is not None and g.blocks and g.unit is u and g.inmain and g not in hooks:
-                        hooks.append(g)
-            for g in hooks:
+                    if g is not None and g.blocks and g.unit is u and g.inmain and g not in [x[0] for x in hooks]:
+                        nulls = [i for i, a in enumerate(h[2].get('args', [])) if facts.is_null(strip_all_casts(root.resolve(a)))]
+                        hooks.append((g, nulls))
+            for g, nulls in hooks:
                 n += 1
-                eff, ind, ext, calls = E.block_effects(u, g, set(g.blocks), skip=lambda c_: False)
+                eff, ind, ext, calls = E.block_effects(u, g, blocks_with_null_params(g, nulls) if nulls else set(g.blocks), skip=lambda c_: False)
                 bad = {}
                 for e in eff:
                     if not (private_origin(e) and e.kind == 'store' and e.rec) or e.rec in ('urefcount', 'uchain', 'urequest', 'upump', 'upipe'):
@@ -373,6 +410,44 @@ AGREE_EXCEPTIONS = {
     ('upipe_http_src_set_uri', 'url'): 'the return without a store (upipe_http_source.c:1202) is the allocation-failure path of uref_block_flow_alloc_def, which the code reports as UBASE_ERR_NONE after logging; allocation failures are out of scope',
     ('_upipe_fsink_set_fd', 'fd'): 'a negative descriptor asks to close: when the sink is already closed (fd == -1, tested at the top) there is nothing to store and -1 is what the getter reports',
 }
+
+
+class _FnView:
+    def __init__(self, fn, succ):
+        self._fn = fn
+        self.succ = succ
+
+    def __getattr__(self, a):
+        return getattr(self._fn, a)
+
+
+def equal_pruned(g, rec, field):
+    """g with the arm of `value == s->field` / `s->field != value` (value a parameter) that is taken when the field already
+    holds the value cut off: on that arm there is nothing to store and the getter reports the value all the same"""
+    def unwrap(c):
+        c = strip_all_casts(c)
+        while isinstance(c, dict) and c.get('k') == 'call' and c.get('fn') == '__builtin_expect' and c.get('args'):
+            c = strip_all_casts(g.resolve(c['args'][0]))
+            if isinstance(c, dict) and c.get('k') == 'un' and c.get('op') == '!':
+                inner = strip_all_casts(g.resolve(c['e']))
+                if isinstance(inner, dict) and inner.get('k') == 'un' and inner.get('op') == '!':
+                    c = strip_all_casts(g.resolve(inner['e']))
+        return c
+    succ = dict(g.succ)
+    for b in g.blocks:
+        c = g.cond(b)
+        if not c:
+            continue
+        e = unwrap(c[0])
+        if not (isinstance(e, dict) and e.get('k') == 'bin' and e.get('op') in ('==', '!=')):
+            continue
+        l, r = strip_all_casts(g.resolve(e['lhs'])), strip_all_casts(g.resolve(e['rhs']))
+        for a, b2 in ((l, r), (r, l)):
+            if isinstance(a, dict) and a.get('k') == 'mem' and a.get('rec') == rec and a.get('f') == field and \
+                    isinstance(b2, dict) and b2.get('k') == 'ref' and b2.get('d') == 'param':
+                keep = c[2] if e['op'] == '==' else c[1]
+                succ[b] = [keep]
+    return _FnView(g, succ)
 
 
 def check_agree_paths(rep, E, prog, setter_slices, direct, inst, root):
@@ -410,6 +485,7 @@ def check_agree_paths(rep, E, prog, setter_slices, direct, inst, root):
                 ev = pr.Events(g)
                 if not ev.find(stores):
                     continue         # not the function that implements this pair
+                ev.fn = equal_pruned(g, rec, field)
 
                 def accepting(n, g=g):
                     # `return UBASE_ERR_NONE` or a tail call (delegation); a returned variable is the propagated failure of UBASE_RETURN
